@@ -991,8 +991,9 @@ def random_document(rnd, size=None, lang='en', kinds=None, max_depth=5, glossary
     else:
         g.pool = [k for k in g.pool if not k.startswith('usermac')]
     if theorems:
-        g.theorems = [('ythm', 'Ytheorem'), ('ylem', 'Ylemma')]
-        g.w('\\newtheorem{ythm}{Ytheorem}\n\\newtheorem{ylem}[ythm]{Ylemma}\n')
+        # (yp: the generated title is longer than the \begin{yp} that produces it)
+        g.theorems = [('ythm', 'Ytheorem'), ('ylem', 'Ylemma'), ('yp', 'Ysupplementaryproposition')]
+        g.w('\\newtheorem{ythm}{Ytheorem}\n\\newtheorem{ylem}[ythm]{Ylemma}\n\\newtheorem{yp}{Ysupplementaryproposition}\n')
     if glossary_file:
         g.w('\\LTinput{' + glossary_file + '}\n')
         if rnd.random() < .3:
